@@ -1,0 +1,60 @@
+//go:build verif
+
+// Contracts for the SBI-to-CDR converters. Compiled only under the build tag "verif".
+
+package cdrConvert
+
+import "time"
+
+func verif_forall[T any](f func(T) bool) bool { return true }
+
+// Every reported usage container appears exactly once, in order, with its values unchanged (C02);
+// no input makes the converters panic (C11).
+//@ func UsedUnitContainerToCdr [C02 C11]
+//@   linear cdrUsedUnitContainerList
+//@   ensures len(result) == len(usedUnitContainerList)
+//@   ensures forall i int :: 0 <= i && i < len(usedUnitContainerList) ==> result[i].LocalSequenceNumber != nil && result[i].LocalSequenceNumber.Value == int64(usedUnitContainerList[i].LocalSequenceNumber)
+//@   ensures forall i int :: 0 <= i && i < len(usedUnitContainerList) ==> result[i].DataVolumeUplink != nil && result[i].DataVolumeUplink.Value == int64(usedUnitContainerList[i].UplinkVolume)
+//@   ensures forall i int :: 0 <= i && i < len(usedUnitContainerList) ==> result[i].DataVolumeDownlink != nil && result[i].DataVolumeDownlink.Value == int64(usedUnitContainerList[i].DownlinkVolume)
+//@   ensures forall i int :: 0 <= i && i < len(usedUnitContainerList) ==> result[i].DataTotalVolume != nil && result[i].DataTotalVolume.Value == int64(usedUnitContainerList[i].TotalVolume)
+//@   ensures forall i int :: 0 <= i && i < len(usedUnitContainerList) ==> result[i].ServiceSpecificUnits != nil && *result[i].ServiceSpecificUnits == int64(usedUnitContainerList[i].ServiceSpecificUnits)
+//@   loop 0: invariant 0 <= ITER && ITER <= len(usedUnitContainerList) && len(cdrUsedUnitContainerList) == ITER
+//@   loop 0: invariant forall i int :: 0 <= i && i < ITER ==> cdrUsedUnitContainerList[i].LocalSequenceNumber != nil && cdrUsedUnitContainerList[i].LocalSequenceNumber.Value == int64(usedUnitContainerList[i].LocalSequenceNumber)
+//@   loop 0: invariant forall i int :: 0 <= i && i < ITER ==> cdrUsedUnitContainerList[i].DataVolumeUplink != nil && cdrUsedUnitContainerList[i].DataVolumeUplink.Value == int64(usedUnitContainerList[i].UplinkVolume)
+//@   loop 0: invariant forall i int :: 0 <= i && i < ITER ==> cdrUsedUnitContainerList[i].DataVolumeDownlink != nil && cdrUsedUnitContainerList[i].DataVolumeDownlink.Value == int64(usedUnitContainerList[i].DownlinkVolume)
+//@   loop 0: invariant forall i int :: 0 <= i && i < ITER ==> cdrUsedUnitContainerList[i].DataTotalVolume != nil && cdrUsedUnitContainerList[i].DataTotalVolume.Value == int64(usedUnitContainerList[i].TotalVolume)
+//@   loop 0: invariant forall i int :: 0 <= i && i < ITER ==> cdrUsedUnitContainerList[i].ServiceSpecificUnits != nil && *cdrUsedUnitContainerList[i].ServiceSpecificUnits == int64(usedUnitContainerList[i].ServiceSpecificUnits)
+
+//@ func MultiUnitUsageToCdr [C02 C11]
+//@   linear cdrMultiUnitUsageList
+//@   ensures len(result) == len(multiUnitUsageList)
+//@   ensures forall i int :: 0 <= i && i < len(multiUnitUsageList) ==> result[i].RatingGroup.Value == int64(multiUnitUsageList[i].RatingGroup) && len(result[i].UsedUnitContainers) == len(multiUnitUsageList[i].UsedUnitContainer)
+//@   loop 0: invariant 0 <= ITER && ITER <= len(multiUnitUsageList) && len(cdrMultiUnitUsageList) == ITER
+//@   loop 0: invariant forall i int :: 0 <= i && i < ITER ==> cdrMultiUnitUsageList[i].RatingGroup.Value == int64(multiUnitUsageList[i].RatingGroup) && len(cdrMultiUnitUsageList[i].UsedUnitContainers) == len(multiUnitUsageList[i].UsedUnitContainer)
+
+//@ func TriggersToCdr [C11]
+//@   ensures len(result) == 0
+
+// specBCD: two decimal digits packed into one octet (TS 32.298 time stamp format)
+func specBCD(v int) byte { return byte(v/10)<<4 | byte(v%10) }
+
+func specAbs(v int) int {
+	if v < 0 {
+		return -v
+	}
+	return v
+}
+
+func specZoneOffset(t *time.Time) int { _, off := t.Zone(); return off }
+
+// TimeStampToCdr: YYMMDDhhmmssShhmm, BCD, S = '+' / '-' and hhmm = magnitude of the zone offset (C02),
+// for every zone offset: positive, negative, not aligned to the hour.
+//@ func TimeStampToCdr [C02 C11]
+//@   requires t != nil
+//@   ensures len(result.Value) == 9
+//@   ensures result.Value[0] == specBCD(t.Year()%100) && result.Value[1] == specBCD(int(t.Month())) && result.Value[2] == specBCD(t.Day())
+//@   ensures result.Value[3] == specBCD(t.Hour()) && result.Value[4] == specBCD(t.Minute()) && result.Value[5] == specBCD(t.Second())
+//@   ensures (specZoneOffset(t) >= 0 ==> result.Value[6] == '+') && (specZoneOffset(t) < 0 ==> result.Value[6] == '-')
+//@   ensures result.Value[7] == specBCD(specAbs(specZoneOffset(t))/3600) && result.Value[8] == specBCD(specAbs(specZoneOffset(t))%3600/60)
+
+//@ func PlmnIdToCdr [C11]
